@@ -71,9 +71,20 @@ def hdrOfJson (j : Json) : Option SubHdr :=
   | .null => none
   | _ => some ⟨getStr j "dest", getBool j "required"⟩
 
+def getCfgList (j : Json) (k : String) : Except String (List Cfg) :=
+  match j.getObjVal? k with
+  | .ok (.arr xs) => xs.toList.mapM cfgOfJson
+  | _ => .ok []
+
 partial def pOfJson (j : Json) : Except String P := do
   let dflt ← getCfg j "dflt"
   let envc ← getCfg j "envc"
+  let opts ← getCfg j "opts"
+  let dcfs ← getCfgList j "dcfs"
+  let pdcfs ← getCfgList j "pdcfs"
+  let cfgKey := match j.getObjVal? "cfgKey" with
+    | .ok (.str s) => some s
+    | _ => none
   let sub := match j.getObjVal? "sub" with
     | .ok s => hdrOfJson s
     | .error _ => none
@@ -84,7 +95,8 @@ partial def pOfJson (j : Json) : Except String P := do
         pure (n, q')
       | _ => .error "bad choice"
     | _ => pure []
-  pure (.node ⟨dflt, envc⟩ sub choices)
+  pure (.node { dflt := dflt, envc := envc, path := getStrList j "path", opts := opts, options := getStrList j "options",
+                cfgKey := cfgKey, dcfs := dcfs, pdcfs := pdcfs } sub choices)
 
 partial def argvOfJson (j : Json) : Except String Argv := do
   let items ← match j.getObjVal? "items" with
@@ -100,6 +112,40 @@ partial def argvOfJson (j : Json) : Except String Argv := do
       pure (some (n, r))
     | _ => pure none
   pure (.mk items sub)
+
+def envOfJson (j : Json) : Except String Env := do
+  let vals ← match j.getObjVal? "vals" with
+    | .ok (.arr xs) => xs.toList.mapM fun x => match x with
+      | .arr #[.str n, v] => do
+        let v' ← valOfJson v
+        pure (codes n, v')
+      | _ => .error "bad env value"
+    | _ => pure []
+  let cfgs ← match j.getObjVal? "cfgs" with
+    | .ok (.arr xs) => xs.toList.mapM fun x => match x with
+      | .arr #[.str n, t] => do
+        let t' ← cfgOfJson t
+        pure (codes n, t')
+      | _ => .error "bad env config"
+    | _ => pure []
+  pure ⟨codes (getStr j "root"), vals, cfgs⟩
+
+def ctxOfJson (j : Json) : Except String Ctx :=
+  match j with
+  | .arr xs => xs.toList.mapM fun x => match x with
+    | .arr #[.str k, .arr ts] => do
+      let ts' ← ts.toList.mapM cfgOfJson
+      pure (k, ts')
+    | _ => .error "bad ctx entry"
+  | _ => .ok []
+
+def nodeAt : P → List String → Option P
+  | p, [] => some p
+  | p, n :: rest => match findP n p.choices with
+    | some q => nodeAt q rest
+    | none => none
+
+def ofCodes (l : List Nat) : String := String.ofList (l.map Char.ofNat)
 
 def modeOfJson (j : Json) : Mode :=
   match getStr j "mode" with
@@ -164,6 +210,15 @@ def step (j : Json) : Except String Json := do
     let t ← getCfg j "tree"
     let cfg ← getCfg j "cfg"
     pure (resCfg (applyDefaultCfg fl.single p t cfg))
+  | "layerc" =>
+    let p ← pOfJson (j.getObjValD "p")
+    let E ← envOfJson (j.getObjValD "E")
+    let ctx ← ctxOfJson (j.getObjValD "ctx")
+    match nodeAt p (getStrList j "node") with
+    | some q => pure (Json.mkObj [("ok", cfgToJson (layerC E fuel fl.single ctx fl.mode q))])
+    | none => pure (Json.mkObj [("bad-node", .null)])
+  | "envvar" =>
+    pure (Json.mkObj [("ok", .str (ofCodes (envVarAt (codes (getStr j "root")) ((getStrList j "path").map codes) (codes (getStr j "dest")))))])
   | "merge" =>
     let a ← getCfg j "from"
     let b ← getCfg j "to"
